@@ -83,6 +83,8 @@ def signature(clause, doc, t):
     if spelt:
         flds.append("[%s]" % "; ".join(spelt))
     rootnamed = any(it["name"] == "root" for it in doc["items"])
+    if doc.get("rawnames"):
+        flds.append("names that are not strings")
     return "C16|%s|%s|stage=%s|fields=%s%s" % (clause, fl, t.get("stage", "-"), "+".join(flds) or "plain",
                                               "|an element carries the reserved name of the root of trust"
                                               if rootnamed else "")
@@ -140,6 +142,9 @@ def run(ctx):
         "path length: one target path of 5 ... 3000 elements (version 2, x509_pem chain under a quote; version 1 has "
         "only four element names, so no long path exists there); such a document gets 2 s per 300 elements; the "
         "trace checker walks these paths recursively (JVM thread stack raised to 512 MB for the validation runs)",
+        "element names are JSON values: version-2 documents also use int / float / bool / null names (as name, as "
+        "signed_by, in targets; a string and a number that print the same side by side); names are compared by "
+        "Python dict-key equality when the observed graph is projected",
         "field-content classes inside one abstract class (which bad hex string, which non-list value) are "
         "seeded samples",
     ]
@@ -216,7 +221,7 @@ def run(ctx):
     n_rand = ctx.pick(1500, 40000)
     docs += [certload.random_doc(ctx.rng) for _ in range(n_rand)]
     res.coverage["random_documents"] = n_rand
-    directed = certload.directed_docs(ctx.rng)
+    directed = certload.directed_docs(ctx.rng) + certload.rawname_docs(ctx.rng)
     docs += directed
     res.coverage["directed_documents"] = len(directed)
     # path length as such: one target path of 5 ... 3000 elements (well formed, one bad link near the top /
